@@ -71,6 +71,19 @@ Theorem C04_rows_sound : forall cols (q : query) (names : list (option (list Z))
 Proof. exact scan_rows_sound. Qed.
 Print Assumptions C04_rows_sound.
 
+(* end to end for non-aggregate queries: after ORDER BY, projection onto the visible targets, DISTINCT and
+   LIMIT, every cell of every row of the final result inhabits the datatype at its position of the description *)
+Theorem C04_result_sound : forall cols (q : query) (names : list (option (list Z))) d table,
+  q_group q = None ->
+  length names = length (q_targets q) ->
+  q_vis q = vis_from 0 (combine (q_targets q) names) ->
+  description cols [] (combine (q_targets q) names) = Some d ->
+  Forall (conforms cols) table ->
+  Forall (fun out => Forall2 (fun v nt => has_type v (snd nt) = true /\ forall k, v <> VErr k) out d)
+         (exec q table).
+Proof. exact exec_nonagg_sound. Qed.
+Print Assumptions C04_result_sound.
+
 (* One obligation per overload: the typing tables of all modelled constructors, computed from the
    registry snapshot, are exactly these (a changed declaration breaks the equality) ... *)
 Theorem C04_binop_overloads : binop_table =
